@@ -62,6 +62,65 @@ func runC12Bookkeeping(sum *Summary) error {
 			}
 		}
 	}
+	// point lookups tell apart long keys that share a long prefix, and a range end that merely starts with NUL is
+	// not the wildcard
+	{
+		g, _, err := newRealFSM(vfs.NewMem(), fsm.RecoveryTypeSnapshot)
+		if err != nil {
+			return err
+		}
+		defer g.close()
+		idx := uint64(0)
+		ap := func(c gCmd) (*regattapb.CommandResult, error) {
+			idx++
+			res, _, err := g.apply([]gEntry{{Idx: idx, Cmd: c}})
+			if err != nil {
+				return nil, err
+			}
+			return &regattapb.CommandResult{Responses: res[0].Resps}, nil
+		}
+		for _, plen := range []int{100, 250, 251, 252, 300, 1000, 1019} {
+			p := bytes.Repeat([]byte{'p'}, plen)
+			kb := append(append([]byte(nil), p...), 'b')
+			ka := append(append([]byte(nil), p...), 'a')
+			if _, err := ap(gCmd{Kind: regattapb.Command_PUT, K: kb, V: []byte("vb")}); err != nil {
+				return err
+			}
+			in := map[string]any{"shared_prefix_bytes": plen, "stored": "prefix+b", "asked": "prefix+a"}
+			sum.Evaluations++
+			if r, err := g.read(gRange{Key: ka}); err != nil || len(r.Kvs) != 0 || r.Count != 0 {
+				sum.violate(300000+plen, "a lookup of a key that was never written returns a pair (two different user keys are treated as one)", in, fmt.Sprint(r, err))
+				return nil
+			}
+			if res, err := ap(gCmd{Kind: regattapb.Command_PUT, K: ka, V: []byte("va"), Prev: true}); err != nil || res.Responses[0].GetResponsePut().GetPrevKv() != nil {
+				sum.violate(300000+plen, "a put of a key that was never written reports a previous pair (two different user keys are treated as one)", in, fmt.Sprint(res, err))
+				return nil
+			}
+			if r, err := g.read(gRange{Key: kb}); err != nil || len(r.Kvs) != 1 || string(r.Kvs[0].Value) != "vb" {
+				sum.violate(300000+plen, "a stored pair is not found any more after a put of another key", in, fmt.Sprint(err))
+				return nil
+			}
+		}
+		if _, err := ap(gCmd{Kind: regattapb.Command_PUT, K: []byte{0, 1, 'x'}, V: []byte("v")}); err != nil {
+			return err
+		}
+		if _, err := ap(gCmd{Kind: regattapb.Command_PUT, K: []byte("m"), V: []byte("v")}); err != nil {
+			return err
+		}
+		for _, end := range [][]byte{{0, 2}, {0, 0}, {0, 1, 'y'}} {
+			sum.Evaluations++
+			r, err := g.read(gRange{Key: []byte{0}, End: end})
+			if err != nil {
+				return err
+			}
+			for _, kv := range r.Kvs {
+				if bytes.Compare(kv.Key, end) >= 0 {
+					sum.violate(310000, "a range read returns a key at or beyond its range end (an end that merely starts with NUL was taken for the wildcard)", map[string]any{"range_end": fmt.Sprintf("%x", end)}, fmt.Sprintf("%q", kv.Key))
+					return nil
+				}
+			}
+		}
+	}
 	return nil
 }
 
